@@ -272,21 +272,25 @@ Lemma add_spec_cases : forall os gl x n r gl' x', add_spec os gl x n = (r, gl', 
   (r = ROk /\ gl' = registered gl n /\ inst_eq x' (set_ids x ((n, next_id gl) :: i_ids x))) \/
   (rejected r /\ gl' = gl /\ inst_eq x' x).
 Proof.
-  intros os gl x n r gl' x' H.
-  destruct r; try (right; right; assert (R : rejected RErr \/ rejected RPanic) by (left; left; reflexivity);
-                   first [ destruct (add_spec_rejected _ _ _ _ _ _ _ H (or_introl eq_refl)) as (A & B); split; [left; reflexivity|auto]
-                         | destruct (add_spec_rejected _ _ _ _ _ _ _ H (or_intror eq_refl)) as (A & B); split; [right; reflexivity|auto] ]).
-  all: unfold add_spec in H.
-  all: destruct ((0 <=? n) && (n <? MAX_SIGNUM)).
-  all: try (destruct (lookup n (i_ids x)); [inversion H; subst; auto|];
-            destruct (zmem n forbidden); [discriminate|]; destruct (os n); [|discriminate];
-            inversion H; subst; right; left; repeat split; try reflexivity;
-            apply (inst_eq_set_ids _ _ _ (inst_eq_init_slot x n))).
-  all: try (destruct (n <? 0); [|discriminate];
-            destruct ((0 <=? 2 ^ 64 + n) && (2 ^ 64 + n <? MAX_SIGNUM)); [|discriminate];
-            destruct (lookup (2 ^ 64 + n) (i_ids x)); [inversion H; subst; auto|discriminate]).
-  all: try (destruct (lookup n (i_ids x)); [discriminate|];
-            destruct (zmem n forbidden); [discriminate|]; destruct (os n); discriminate).
+  intros os gl x n r gl' x' H. unfold add_spec in H.
+  assert (Q : inst_eq (set_poisoned (init_slot x n)) x).
+  { eapply inst_eq_trans; [apply inst_eq_poisoned|apply inst_eq_init_slot]. }
+  destruct ((0 <=? n) && (n <? MAX_SIGNUM)).
+  - destruct (lookup n (i_ids x)).
+    + inversion H; subst. left; auto.
+    + destruct (zmem n forbidden).
+      * inversion H; subst. right; right. split; [right; reflexivity|]. split; [reflexivity|exact Q].
+      * destruct (os n); inversion H; subst.
+        -- right; left. split; [reflexivity|]. split; [reflexivity|].
+           apply (inst_eq_set_ids _ _ _ (inst_eq_init_slot x n)).
+        -- right; right. split; [left; reflexivity|]. split; [reflexivity|apply inst_eq_init_slot].
+  - destruct (n <? 0).
+    + destruct ((0 <=? 2 ^ 64 + n) && (2 ^ 64 + n <? MAX_SIGNUM)).
+      * destruct (lookup (2 ^ 64 + n) (i_ids x)); inversion H; subst.
+        -- left; auto.
+        -- right; right. split; [right; reflexivity|]. split; [reflexivity|apply inst_eq_poisoned].
+      * inversion H; subst. right; right. split; [right; reflexivity|]. split; [reflexivity|apply inst_eq_poisoned].
+    + inversion H; subst. right; right. split; [right; reflexivity|]. split; [reflexivity|apply inst_eq_poisoned].
 Qed.
 
 Lemma add_spec_trans : forall os gl x n r gl' x',
@@ -319,7 +323,7 @@ Lemma new_loop_Inv : forall os sigs st i x r g' x',
   new_loop os sigs (g st) x = (r, g', x') ->
   Inv (mkSt g' (upd (insts st) i x') false) /\ i_alive x' = true /\ i_clones x' = i_clones x /\ (r = ROk \/ rejected r).
 Proof.
-  induction sigs as [|n sigs IH]; intros st i x r g' x' I Hx A H; cbn in H.
+  induction sigs as [|n sigs IH]; intros st i x r g' x' I Hx A H; cbn [new_loop] in H.
   - inversion H; subst. rewrite (upd_same _ _ _ Hx), (state_eta st (inv_dead _ I)). auto.
   - rewrite add_closed in H.
     destruct (add_spec os (g st) x n) as [[o g1] x1] eqn:Ha.
